@@ -20,11 +20,11 @@ THEOREMS = ["C18_refines", "C18_refines_classes", "C18_wf", "C18_join_total", "C
 CLASSES = {
     1: ("F15", "mv FILE to a missing target without extension and without trailing separator creates a "
                "directory of that name and moves the file inside it instead of renaming"),
-    2: ("F16", "cp FILE onto itself reports true and leaves the file EMPTY (std::fs::copy truncates the "
+    2: ("F20", "cp FILE onto itself reports true and leaves the file EMPTY (std::fs::copy truncates the "
                "target before reading the source)"),
-    3: ("F17", "writefile / appendfile / write_binary_file / touch / cp to a target written with a trailing "
+    3: ("F21", "writefile / appendfile / write_binary_file / touch / cp to a target written with a trailing "
                "separator fails but leaves the missing parent directories it created"),
-    4: ("F18", "mv FILE into a directory that already has a file of that name is refused (error, nothing "
+    4: ("F22", "mv FILE into a directory that already has a file of that name is refused (error, nothing "
                "changed) although mv FILE onto an existing file overwrites it"),
 }
 
@@ -228,7 +228,7 @@ def known_open(ck, cls):
     for k in ck.known_db:
         if k.get("property") == "C18" and k.get("id") == fid:
             return k.get("status") == "open"
-    return True
+    return False   # a class that the committed register does not list is never tolerated
 
 
 def split_model(line):
